@@ -39,7 +39,53 @@ pub struct Doc {
     pub front: Option<String>,
     pub blocks: Vec<Block>,
     pub trailing_newline: bool,
+    /// the text starts with a byte-order mark (some editors write one)
+    pub bom: bool,
 }
+
+/// Markdown constructs random block generation rarely produces. Rendered verbatim (Block::Raw). Shapes that make
+/// even a fresh build panic on the unchanged tree are discarded at run time (and counted), not listed here.
+pub const ZOO: &[&str] = &[
+    "> > nested quote\n> > second line",
+    "3. third\n4. fourth",
+    "- [ ] open task\n- [x] done task",
+    "[ref]: https://example.com \"ref title\"\n\nsee [ref] and [other][ref]",
+    "<https://example.com/auto>",
+    "<div>\nhtml block\n</div>",
+    "<!-- only a comment -->",
+    "$$\nx = 1\n$$",
+    "line one  \nline two after a hard break",
+    "`` code with ` backtick ``",
+    "| a | b |\n|:--|--:|\n| 1 \\| 2 | 3 |",
+    "[*emph* in link](1)",
+    "[https://example.com](https://example.com)",
+    "[a](1 \"link title\")",
+    "#",
+    "# ![](logo.png)",
+    "# [](1)",
+    "## &nbsp;",
+    "Setext heading\n======",
+    "#### skipped levels",
+    "trailing backslash\\\nnext line",
+    "![image](pic.png \"t\")",
+    "~~strike~~ and **bold _nested_ text**",
+    "    indented code block",
+    "[^1]: a footnote\n\ntext with a footnote[^1]",
+    "&amp; entities &copy; here",
+    "\\*not emphasis\\* and \\[not a link\\]",
+    "1) paren list\n2) second",
+    "+ plus list\n+ second",
+    "* star list\n* second",
+    "- item\n\n  continuation paragraph\n\n  - nested",
+    "[[1]] and [[2|piped]] wiki links in a paragraph",
+    "[dot link](./1) and [parent link](../1)",
+    "[ext link](1.md) [ext link 2](2.md)",
+    "Term\n: definition style line",
+    "***",
+    "___",
+    "<span>inline html</span> in a paragraph",
+    "word word word word word word word word word word word word word word word word word word word word word word word word word word word word word word",
+];
 
 pub const WORDS: &[&str] = &[
     "alpha", "beta", "gamma", "delta", "omega", "über", "naïve", "日本", "x", "note", "idea", "rust", "graph",
@@ -195,6 +241,9 @@ impl<'a> Render<'a> {
         if d.trailing_newline && !s.is_empty() {
             s.push('\n');
         }
+        if d.bom {
+            s.insert(0, '\u{feff}');
+        }
         s
     }
 }
@@ -341,6 +390,9 @@ impl<'a> Gen<'a> {
     }
 
     pub fn block(&mut self) -> Block {
+        if self.rng.chance(1, 12) {
+            return Block::Raw(self.rng.pick(ZOO).to_string());
+        }
         if self.rng.chance(1, 20) {
             // blocks without content: an empty quote, empty list items
             return match self.rng.below(4) {
@@ -367,7 +419,7 @@ impl<'a> Gen<'a> {
         if self.rng.chance(1, 25) {
             // empty note, sometimes with nothing but front matter
             let front = if self.rng.chance(1, 3) { Some(format!("title: {}", self.word())) } else { None };
-            return Doc { front, blocks, trailing_newline: self.rng.chance(1, 2) };
+            return Doc { front, blocks, trailing_newline: self.rng.chance(1, 2), bom: false };
         }
         if self.rng.chance(4, 5) {
             blocks.push(Block::Heading { level: *self.rng.pick(&[1u8, 1, 1, 2, 3]), inl: self.inlines(5), setext: self.rng.chance(1, 12) });
@@ -388,7 +440,7 @@ impl<'a> Gen<'a> {
             }
         }
         let front = if self.rng.chance(1, 10) { Some(format!("title: {}", self.word())) } else { None };
-        Doc { front, blocks, trailing_newline: self.rng.chance(4, 5) }
+        Doc { front, blocks, trailing_newline: self.rng.chance(4, 5), bom: self.rng.chance(1, 60) }
     }
 }
 
@@ -497,6 +549,9 @@ pub const MUTATIONS: &[&str] = &[
     "toggle_trailing_newline",
     "trailing_blank_lines",
     "end_with_special_block",
+    "insert_zoo_construct",
+    "toggle_bom",
+    "blank_first_heading",
 ];
 
 /// Apply mutation `m` (index into MUTATIONS) to `doc`. Returns the name applied.
@@ -688,6 +743,21 @@ pub fn mutate(g: &mut Gen, doc: &mut Doc, m: usize, version: &str) -> &'static s
             };
             doc.blocks.push(b);
             doc.trailing_newline = g.rng.chance(1, 2);
+        }
+        "insert_zoo_construct" => {
+            let b = Block::Raw(g.rng.pick(ZOO).to_string());
+            let pos = g.rng.below(doc.blocks.len() + 1);
+            doc.blocks.insert(pos, b);
+        }
+        "toggle_bom" => {
+            doc.bom = !doc.bom;
+        }
+        "blank_first_heading" => {
+            let b = Block::Raw(g.rng.pick(&["#", "# ![](logo.png)", "# [](1)", "## &nbsp;"]).to_string());
+            match first_heading {
+                Some(i) => doc.blocks[i] = b,
+                None => doc.blocks.insert(0, b),
+            }
         }
         "swap_blocks" => {
             if doc.blocks.len() >= 2 {
